@@ -122,3 +122,40 @@ fn c12_value_string_same_quotes() {
     let b = Value::Literal(CssString::new(String::from("b"), q));
     assert!(a == a.clone() && !(a == b) && !(b == a));
 }
+
+// ---- C13 at the instantiation the Sass map functions use: ValueMap =
+// OrderMap<Value, Value>, keys compared with css::Value's `==` ----
+
+fn num(v: i64, u: crate::value::Unit) -> Value {
+    Value::Numeric(Numeric::new(v, u), false)
+}
+/// C13: a key is found exactly when it is `==` to a stored key — 1in and
+/// 96px are the same key, 95px is not; setting an `==` key replaces the
+/// value in place instead of adding an entry.
+#[kani::proof]
+#[kani::unwind(4)]
+fn c13_valuemap_keys_follow_value_eq() {
+    use crate::value::Unit;
+    let mut m = ValueMap::singleton(num(1, Unit::In), Value::True);
+    assert!(m.get(&num(96, Unit::Px)).is_some(), "map.get finds a key that is == to the stored key");
+    assert!(m.contains_key(&num(96, Unit::Px)), "map.has-key follows ==");
+    assert!(m.get(&num(95, Unit::Px)).is_none(), "a key that is not == is not found");
+    assert!(!m.contains_key(&Value::True));
+    let old = m.insert(num(96, Unit::Px), Value::Null);
+    assert!(matches!(old, Some(Value::True)), "map.set on an == key replaces the value");
+    assert!(m.len() == 1, "… in place, without adding an entry");
+    assert!(matches!(m.get(&num(1, Unit::In)), Some(Value::Null)), "after map.set, map.get returns the new value");
+    assert!(m.remove(&num(96, Unit::Px)).is_some() && m.is_empty(), "map.remove follows ==");
+}
+/// C13: a stored key whose value is null is still present (has-key true,
+/// get gives null).
+#[kani::proof]
+#[kani::unwind(4)]
+fn c13_valuemap_null_value_is_present() {
+    let mut m = ValueMap::new();
+    m.insert(Value::True, Value::Null);
+    m.insert(Value::Null, Value::False);
+    assert!(m.contains_key(&Value::True) && matches!(m.get(&Value::True), Some(Value::Null)));
+    assert!(m.contains_key(&Value::Null) && matches!(m.get(&Value::Null), Some(Value::False)), "null is a key like any other");
+    assert!(m.len() == 2);
+}
